@@ -357,6 +357,7 @@ impl Ctx {
                             }
                             Verdict::Known { finding, what } => {
                                 if !failed.get() {
+                                    self.maybe_dump_known(name, finding, &c);
                                     let mut st = stats_cell.borrow_mut();
                                     st.absorb_obs(obs);
                                     let e = st.known_seen.entry(finding.to_string()).or_insert((0, what));
@@ -534,6 +535,78 @@ impl Ctx {
             exhaustive: false,
             wall_s: t0.elapsed().as_secs_f64(),
         });
+        ok
+    }
+
+    /// With VERIF_DUMP_KNOWN=1 the first case attributed to each open finding is written to
+    /// regressions/<property>-<finding>.json (maintenance aid; the files are then committed).
+    fn maybe_dump_known<C: Serialize>(&self, check: &str, finding: &str, case: &C) {
+        if std::env::var("VERIF_DUMP_KNOWN").is_err() {
+            return;
+        }
+        let dir = format!("{}/regressions", verif_dir());
+        let _ = std::fs::create_dir_all(&dir);
+        let path = format!("{dir}/{}-{finding}.json", self.property);
+        if std::path::Path::new(&path).exists() {
+            return;
+        }
+        let body = json!({"property": self.property, "check": check, "expect": finding, "case": serde_json::to_value(case).unwrap_or(Value::Null)});
+        let _ = std::fs::write(&path, serde_json::to_string_pretty(&body).unwrap_or_default());
+    }
+
+    /// Replay the committed regression cases of this property (plain oracle, no proptest):
+    /// cases of open findings must still be attributed to that finding (that prints the
+    /// KNOWN-FINDING line deterministically), cases of fixed findings must hold.
+    pub fn run_regressions(&self, replay: fn(&str, &Value) -> Option<Verdict>) -> bool {
+        let dir = format!("{}/regressions", verif_dir());
+        let Ok(rd) = std::fs::read_dir(&dir) else { return true };
+        let mut files: Vec<_> = rd.flatten().map(|e| e.path()).filter(|p| p.extension().map(|x| x == "json").unwrap_or(false)).collect();
+        files.sort();
+        let t0 = Instant::now();
+        let mut stats = Stats::default();
+        let mut ok = true;
+        for f in files {
+            let Ok(txt) = std::fs::read_to_string(&f) else { continue };
+            let Ok(v) = serde_json::from_str::<Value>(&txt) else { continue };
+            if v.get("property").and_then(|x| x.as_str()) != Some(self.property.as_str()) {
+                continue;
+            }
+            let check = v.get("check").and_then(|x| x.as_str()).unwrap_or("");
+            let expect = v.get("expect").and_then(|x| x.as_str()).unwrap_or("pass");
+            let case = v.get("case").cloned().unwrap_or(Value::Null);
+            let Some(verdict) = replay(check, &case) else {
+                eprintln!("INCONCLUSIVE: regression file {} names unknown check {check}", f.display());
+                std::process::exit(2);
+            };
+            stats.evaluations += 1;
+            stats.nontrivial.insert(crate::led::hash_str(&txt));
+            match self.resolve(verdict) {
+                Verdict::Pass => {
+                    if expect != "pass" {
+                        println!("NOTE: listed finding {expect} no longer shows on {} (fixed?)", f.display());
+                    }
+                }
+                Verdict::Known { finding, what } => {
+                    let e = stats.known_seen.entry(finding.to_string()).or_insert((0, what));
+                    e.0 += 1;
+                }
+                Verdict::Fail(msg) => {
+                    println!("--- violation detail (regression {}) ---\n{msg}", f.display());
+                    self.violated.store(true, Ordering::SeqCst);
+                    println!("VIOLATION property={} replay={}", self.property, f.display());
+                    ok = false;
+                }
+            }
+        }
+        if stats.evaluations > 0 {
+            self.sub.lock().unwrap().push(SubReport {
+                name: "committed_regressions".to_string(),
+                stats,
+                rule: "committed shrunk cases of fixed findings (must hold) and of open findings (must still be attributed to exactly that finding), replayed by the plain oracle".to_string(),
+                exhaustive: true,
+                wall_s: t0.elapsed().as_secs_f64(),
+            });
+        }
         ok
     }
 
